@@ -149,7 +149,11 @@ def run(ctx, eng):
                                       a, nd))
                 continue
             elif isinstance(nd, ast.FormattedValue):
-                it, how = nd.value, 'f-string'
+                sites += 1
+                if is_setty(eng, nd.value, fi):
+                    found.append((q, 'formats a set into a message',
+                                  nd.value, nd))
+                continue
             elif isinstance(nd, ast.Starred):
                 it, how = nd.value, 'unpacks'
             if it is None:
@@ -159,8 +163,16 @@ def run(ctx, eng):
                 found.append((q, '%s over a set' % how, it, nd))
     ctx.record('ordered_consumption_sites', sites)
     ctx.floor('ordered_consumption_sites', 30)
+    def what(q, expr):
+        # a local is named by the expression it was (once) assigned, so that
+        # the finding does not depend on what the local is called
+        if isinstance(expr, ast.Name):
+            v = eng.D._single_assign(m.funcs[q], expr.id)
+            if v is not None:
+                return unparse(v)
+        return unparse(expr)
     for q, how, expr, nd in found:
-        ctx.ob('PURE.set-order', q, '%s|%s' % (how, unparse(expr)[:50]),
+        ctx.ob('PURE.set-order', q, '%s|%s' % (how, what(q, expr)[:50]),
                False, 'hash order of %s reaches an observable (%s): the '
                'result differs between PYTHONHASHSEED values'
                % (unparse(expr)[:60], how), node=nd)
